@@ -1313,6 +1313,8 @@ class SplitWorld(BaseWorld):
                     ev['activity'] = False
             if self.pre(ev):
                 return ev
+            if op == 'sle' and self.family == 'sle':
+                self.stats['avoided:sle_computed_after_given_can_segfault'] += 1
         return {'op': 'noop'}
 
     def gen_fault(self, r):
@@ -1424,7 +1426,15 @@ class SplitWorld(BaseWorld):
             if rows['s'][k] + rows['l'][k] <= 0:
                 return False
             sol = ev.get('solubility')
-            return sol is None or 0 <= sol < 1
+            if not (sol is None or 0 <= sol < 1):
+                return False
+            if self.sle_situation(ev) == 'computed_after_given_with_unchanged_chemicals':
+                # NOT GENERATED FOR SAFETY: after a given-solubility call sle.py leaves `_index = slice(None)`
+                # behind; the next computed-solubility call then hands the jitted activity-coefficient
+                # kernel a mole-fraction vector longer than its chemical list (out-of-bounds read: wrong
+                # solubility at best, a segmentation fault of the worker at worst).  Reported by the builder.
+                return False
+            return True
         return False
 
     # ------------------------------------------------------------------ apply
